@@ -1,17 +1,21 @@
 package main
 
 import (
+	"bytes"
 	"context"
 	"crypto/ed25519"
 	"encoding/json"
 	"errors"
 	"fmt"
+	"io"
+	"net/http"
 	"sort"
 	"strings"
 	"sync"
 	"time"
 
 	gmsl "github.com/matrix-org/gomatrixserverlib"
+	"github.com/matrix-org/gomatrixserverlib/fclient"
 	"github.com/matrix-org/gomatrixserverlib/spec"
 
 	"verif/gen"
@@ -653,6 +657,8 @@ func runC12(c *mon.Ctx) {
 	c.Floor("model_says_true", 100)
 	c.Floor("model_says_false", 100)
 	c12KeyResponses(c, w, r)
+	c12LargeBatch(c, c.Rand("large-batch"))
+	c12RealClient(c, c.Rand("real-client"))
 }
 
 // ---- key responses: CheckKeys, DirectKeyFetcher, PerspectiveKeyFetcher ----
@@ -1017,6 +1023,172 @@ func c12KeyResponses(c *mon.Ctx, w *keyWorld, r *gen.Rand) {
 	}
 	c.Floor("direct_fetches", 50)
 	c.Floor("perspective_fetches", 50)
+}
+
+// c12LargeBatch: one FetchKeys call of a DirectKeyFetcher for many servers of which many cannot be reached (more than
+// the fetcher has workers): what is returned for a server does not depend on the other servers of the batch - every
+// server that answers with a correctly self-signed, valid document has its key in the result.
+func c12LargeBatch(c *mon.Ctx, r *gen.Rand) {
+	for round := 0; round < c.Scale(16, 160); round++ {
+		nsrv := gen.Pick(r, []int{70, 130, 200, 300})
+		pUnreachable := gen.Pick(r, []float64{0.5, 0.7, 0.9})
+		client := &scriptedKeyClient{direct: map[string]func() (gmsl.ServerKeys, error){}, notary: map[string]func() ([]gmsl.ServerKeys, error){}}
+		reqs := map[keyReq]spec.Timestamp{}
+		reachable := map[string]bool{}
+		nUnreachable := 0
+		for i := 0; i < nsrv; i++ {
+			s := fmt.Sprintf("s%03d.batch.example", i)
+			reqs[keyReq{ServerName: spec.ServerName(s), KeyID: "ed25519:k1"}] = 0
+			if r.Chance(pUnreachable) {
+				nUnreachable++
+				continue // no route: GetServerKeys and LookupServerKeys both fail
+			}
+			id := gen.NewIdentity(r, s, "ed25519:k1")
+			doc := gen.Plain().Bytes(ref.O("server_name", ref.S(s), "valid_until_ts", ref.I(time.Now().UnixMilli()+48*hourMs),
+				"verify_keys", ref.O("ed25519:k1", ref.O("key", ref.S(spec.Base64Bytes(id.Pub).Encode()))), "old_verify_keys", ref.O()))
+			doc, err := gmsl.SignJSON(s, "ed25519:k1", id.Priv, doc)
+			if err != nil {
+				panic(err)
+			}
+			reachable[s] = true
+			client.direct[s] = func() (gmsl.ServerKeys, error) { return parseServerKeys(doc) }
+		}
+		desc := map[string]any{"servers": nsrv, "unreachable": nUnreachable}
+		c.Case("direct-fetcher:large-batch", desc, func() {
+			c.Nontrivial(fmt.Sprintf("large-batch|%d|%d", nsrv, nUnreachable))
+			f := &gmsl.DirectKeyFetcher{Client: client, IsLocalServerName: func(s spec.ServerName) bool { return false }}
+			res, err := f.FetchKeys(context.Background(), reqs)
+			c.Count("direct_fetches_large_batch")
+			if err != nil {
+				c.Failf("directfetcher:error", "FetchKeys: %v", err)
+				return
+			}
+			got := map[string]bool{}
+			for k := range res {
+				got[string(k.ServerName)] = true
+			}
+			missing, extra := 0, 0
+			for s := range reachable {
+				if !got[s] {
+					missing++
+				}
+			}
+			for s := range got {
+				if !reachable[s] {
+					extra++
+				}
+			}
+			if missing > 0 {
+				c.Failf("directfetcher:drops-good-response:large-batch", "one batch for %d servers of which %d cannot be reached: %d of the %d servers that answer with a valid, self-signed document have no key in the result", nsrv, nUnreachable, missing, len(reachable))
+			}
+			if extra > 0 {
+				c.Failf("directfetcher:foreign-keys", "one batch for %d servers: keys returned for %d servers that never answered", nsrv, extra)
+			}
+		})
+	}
+}
+
+type c12RoundTripper func(*http.Request) (*http.Response, error)
+
+func (f c12RoundTripper) RoundTrip(r *http.Request) (*http.Response, error) { return f(r) }
+
+// c12RealClient: the fetchers over the library's own HTTP client (a scripted transport underneath) rather than a
+// scripted KeyClient: key documents travel as bytes, so what the client's decoding makes of member names that only
+// look like server_name / valid_until_ts / verify_keys is part of what is checked. A document that names evil.example
+// never yields a key of victim.example, directly or through a notary.
+func c12RealClient(c *mon.Ctx, r *gen.Rand) {
+	if c.Shard != 0 {
+		return
+	}
+	notary := gen.NewIdentity(r, "notary.example", "ed25519:n1")
+	evil := gen.NewIdentity(r, "evil.example", "ed25519:v1")
+	future := time.Now().UnixMilli() + 48*hourMs
+	type variant struct {
+		name    string
+		members []any // inserted into the document
+		victim  bool  // the forged document claims the victim's name by a look-alike member
+		expired bool  // the document's real valid_until_ts is in the past
+	}
+	var variants []variant
+	for _, la := range []string{"\u017ferver_name", "Server_name", "SERVER_NAME", "server_Name", "\u017fERVER_NAME"} {
+		variants = append(variants, variant{name: "lookalike-server-name:" + la, members: []any{la, ref.S("victim.example")}, victim: true})
+	}
+	for _, la := range []string{"Valid_until_ts", "VALID_UNTIL_TS", "valid_until_t\u017f"} {
+		variants = append(variants, variant{name: "lookalike-valid-until:" + la, members: []any{la, ref.I(future)}, expired: true})
+	}
+	variants = append(variants, variant{name: "plain"})
+	for _, v := range variants {
+		for _, path := range []string{"perspective", "direct", "direct-notary-fallback"} {
+			for _, late := range []bool{true, false} {
+				v, path, late := v, path, late
+				vu := future
+				if v.expired {
+					vu = 0 // the fetchers judge freshness against the epoch (see the assumptions), so "past" is 0
+				}
+				base := []any{"server_name", ref.S("evil.example"), "valid_until_ts", ref.I(vu),
+					"verify_keys", ref.O("ed25519:v1", ref.O("key", ref.S(spec.Base64Bytes(evil.Pub).Encode()))), "old_verify_keys", ref.O()}
+				var members []any
+				if late {
+					members = append(append(members, base...), v.members...)
+				} else {
+					members = append(append(members, v.members...), base...)
+				}
+				doc := gen.Plain().Bytes(ref.O(members...))
+				var err error
+				for _, sg := range []struct {
+					n, k string
+					p    ed25519.PrivateKey
+				}{{"evil.example", "ed25519:v1", evil.Priv}, {"victim.example", "ed25519:v1", evil.Priv}, {"notary.example", notary.KeyID, notary.Priv}} {
+					if doc, err = gmsl.SignJSON(sg.n, gmsl.KeyID(sg.k), sg.p, doc); err != nil {
+						panic(err)
+					}
+				}
+				name := fmt.Sprintf("real-client:%s:%s:late=%v", path, v.name, late)
+				c.Case(name, map[string]any{"document": string(doc), "path": path}, func() {
+					c.Nontrivial(name)
+					rt := c12RoundTripper(func(req *http.Request) (*http.Response, error) {
+						body := []byte(`{"errcode":"M_NOT_FOUND"}`)
+						status := 404
+						switch {
+						case strings.HasSuffix(req.URL.Path, "/key/v2/query"):
+							status, body = 200, []byte(`{"server_keys":[`+string(doc)+`]}`)
+						case strings.HasSuffix(req.URL.Path, "/key/v2/server") && path == "direct":
+							status, body = 200, doc
+						}
+						return &http.Response{StatusCode: status, Header: http.Header{"Content-Type": []string{"application/json"}}, Body: io.NopCloser(bytes.NewReader(body)), Request: req}, nil
+					})
+					client := fclient.NewClient(fclient.WithTransport(rt))
+					reqs := map[keyReq]spec.Timestamp{{ServerName: "victim.example", KeyID: "ed25519:v1"}: 0, {ServerName: "evil.example", KeyID: "ed25519:v1"}: 0}
+					var res map[keyReq]keyRes
+					var ferr error
+					if path == "perspective" {
+						pf := &gmsl.PerspectiveKeyFetcher{PerspectiveServerName: "notary.example", PerspectiveServerKeys: map[gmsl.KeyID]ed25519.PublicKey{gmsl.KeyID(notary.KeyID): notary.Pub}, Client: client}
+						res, ferr = pf.FetchKeys(context.Background(), reqs)
+					} else {
+						df := &gmsl.DirectKeyFetcher{Client: client, IsLocalServerName: func(spec.ServerName) bool { return false }}
+						res, ferr = df.FetchKeys(context.Background(), reqs)
+					}
+					c.Count("real_client_fetches")
+					for k := range res {
+						if k.ServerName == "victim.example" {
+							c.Failf("realclient:key-under-a-name-the-document-does-not-carry:"+path, "a key document whose server_name is evil.example, with a member %v beside it, yielded a key for victim.example (%s path, error %v)", v.members, path, ferr)
+							return
+						}
+						if v.expired {
+							c.Failf("realclient:expired-document-accepted:"+path, "a key document whose valid_until_ts is in the past, with a member %v beside it, yielded a key for %s (%s path)", v.members, k.ServerName, path)
+							return
+						}
+					}
+					if !v.expired && path != "direct-notary-fallback" {
+						// what is demanded: the document is evil.example's own, correctly signed and current
+						if _, ok := res[keyReq{ServerName: "evil.example", KeyID: "ed25519:v1"}]; !ok && !v.victim {
+							c.Failf("realclient:drops-good-response:"+path, "a correct, current key document of evil.example yielded no key (%s path, error %v)", path, ferr)
+						}
+					}
+				})
+			}
+		}
+	}
 }
 
 func faultOr(f string, future bool) string {
